@@ -160,7 +160,8 @@ def _rls(rng, mx=None, dur=None):
     if r < 0.3:
         return LastingStack(maximum_stack=mx, duration=dur)
     tl = rng.choice([dur, 0.0, 0.25, min(dur, H.rtime(rng, True, 40000))])
-    return LastingStack(maximum_stack=mx, duration=dur, stack=rng.randint(0, mx), time_left=tl)
+    # boundary-biased: KarmaBlade.trigger takes its finishing branch when the LAST stack is consumed (stack 1 -> 0)
+    return LastingStack(maximum_stack=mx, duration=dur, stack=rng.choice([0, 1, 1, mx, rng.randint(0, mx)]), time_left=tl)
 
 
 def bound_entity(rng, comp, field, shipped_rm=None):
